@@ -1237,8 +1237,34 @@ def ftruediv(a, b):
             return _fexact(q, a.exp - b.exp, 'div')
         if not _isinstance(r, SInt) and r == 0:
             return _fexact(q, a.exp - b.exp, 'div')
-        return Poison('inexact float division by %r' % (b.num,))
+        return _fdiv_const(a, b)
     return Poison('float division by a symbolic value')
+
+
+def _fdiv_const(a, b):
+    """correctly rounded a / b for a concrete divisor b = d * 2^e (d odd, not 1): the quotient of |a.num| * 2^K by d with K large enough that
+    it has more than 55 significant bits for every non-zero numerator, a sticky bit for the remainder, then round-to-nearest-even to 53 bits"""
+    d = _abs(b.num)
+    m = _max(_abs(a.num.lo), _abs(a.num.hi))
+    if m.bit_length() > 256:
+        return Poison('inexact float division by %r' % (b.num,))
+    K = 56 + d.bit_length()
+    mag = iabs(a.num)
+    num = ishl(mag, K)
+    if EX is not None and _isinstance(num, SInt):
+        # quotient and remainder as fresh variables defined through a multiplication by the constant (no divider circuit)
+        Q, dq = int_var(fresh_name('fq'), 0, num.hi // d)
+        R, dr = int_var(fresh_name('fr'), 0, d - 1)
+        EX.assume(mk_bool(z3.And(dq, dr)))
+        EX.assume(icmp(iadd(imul(Q, d), R), num, '=='))
+    else:
+        Q, R = idivmod(num, d)
+    t = iadd(ishl(Q, 1), iite(icmp(R, 0, '!='), 1, 0))
+    r53 = round53(t)
+    neg = icmp(a.num, 0, '<')
+    if b.num < 0:
+        neg = b_not(neg)
+    return SFloat(iite(neg, ineg(r53), r53), a.exp - b.exp - K - 1)
 
 
 def ffloor(a):
